@@ -65,8 +65,8 @@ func setName(tier string) string {
 func init() {
 	fw.Register(&fw.Prop{
 		ID: "C05",
-		Rule: "cases: (1) exhaustive — every ordered forest of <= 5 (thorough: 6) elements over the tag names {div, x-a} placed in <body>, twice (bare; with random text / white-space / comment nodes interleaved), with random class/id/k attributes, each evaluated against the whole built-in selector set (all compounds of <= 2 (thorough: 3) simple selectors over a fixed alphabet of 3 type/universal + 45 other simple selectors; 4 488 selectors (thorough: 23 499), the full an+b square a,b in [-4,4] for the four :nth-* classes, all pairs of 20 compounds under the 4 combinators (thorough: triples of 8 under 16 combinator pairs), lists, pseudo-elements); " +
-			"(2) random — a random document (<= 25 generated elements, 6 tag names, hostile class/id/attribute values, text / white-space / comment children) with 8 random selector lists (<= 3 complex selectors of <= 3 compounds, :not/:is/:has nested to depth 2, pseudo-elements) printed with random white space, comments, case and escapes. " +
+		Rule: "cases: (1) exhaustive — every ordered forest of <= 5 (thorough: 6) elements over the tag names {div, x-a} placed in <body>, twice (bare; with random text / white-space / comment nodes interleaved), with random class/id/k attributes, each evaluated against the whole built-in selector set (all compounds of <= 2 (thorough: 3) simple selectors over a fixed alphabet of 3 type/universal + 52 other simple selectors; 5 195 selectors (thorough: 26 243), the full an+b square a,b in [-4,4] for the four :nth-* classes, all pairs of 20 compounds under the 4 combinators (thorough: triples of 8 under 16 combinator pairs), lists, pseudo-elements); " +
+			"(2) random — a random document (<= 25 generated elements, 6 tag names, hostile class/id/attribute values, text / white-space / comment children) with 8 random selector lists (<= 3 complex selectors of <= 3 compounds, :not/:is/:has nested to depth 2, pseudo-elements) printed with random white space, comments (also between the simple selectors of a compound), case and escapes. " +
 			"(3) one case replays the W3C selectors-api expectations of css/selector/test_resources through the reference evaluator (it must reproduce all 175 it has a model for) and through css/selector. " +
 			"Every node of the parsed document (elements, text, comments, doctype, document) is submitted to Match. A case is non-trivial when at least one of its selectors matched some but not all elements of its document and all comparisons (match, specificity, pseudo-element, round trip) were carried out; distinct = distinct input.",
 		N: func(tier string) int {
@@ -87,12 +87,13 @@ func init() {
 		CounterFloors: counterFloors,
 		Exhaustive:    func(string) bool { return false },
 		Assumptions: []string{
-			"documents are HTML documents parsed by golang.org/x/net/html in no-quirks mode; elements are HTML-namespace elements (no SVG/MathML), so type and attribute names match ASCII-case-insensitively",
+			"documents are HTML documents parsed by golang.org/x/net/html in no-quirks mode, so type and attribute names match ASCII-case-insensitively",
 			"the reference evaluator (props/c05/ref.go, written from Selectors 4) is trusted; it reads the parsed *html.Node tree, so HTML parsing itself is not under test",
 			"Selectors-4 semantics where levels differ: structural pseudo-classes apply to the root element; :empty ignores document white space (ASCII white space in HTML)",
-			"outside the asserted domain, probed as report-only (see notes/C05.md): ^= $= *= ~= with empty or white-space-only operands, :hover-like pseudo-classes' specificity, :has() arguments with descendant/child combinators, :empty with non-ASCII white space, the i flag on non-ASCII letters, String() of names needing escapes that serialize.go does not produce",
+			"documents are HTML-namespace elements except an occasional <svg> subtree holding elements named html / x-a / x-b (lower-case names only; case-sensitive foreign names are not generated)",
+			"outside the asserted domain, probed as report-only in 2 % of the random cases (open known findings, see notes/C05.md): ^= $= *= with a white-space-only operand against blank attribute values; :has() arguments with descendant/child combinators",
 			"cascadia extensions (:contains, :matches, :haschild, :input, #=, !=), namespaces, :lang/:link/:enabled/:disabled/:checked and invalid selectors are not generated",
-			"exhaustive cases name a built-in, seed-independent selector set instead of carrying it (4 488 / 23 499 selectors); a replay needs the same props/c05 code",
+			"exhaustive cases name a built-in, seed-independent selector set instead of carrying it (5 195 / 26 243 selectors); a replay needs the same props/c05 code",
 		},
 		Batch: 150,
 	})
